@@ -269,6 +269,11 @@ func Run(plan *Plan) *RunResult {
 	for _, f := range plan.LibFaults {
 		e.failAt[f.Kind] = f.At
 	}
+	for i := range plan.RPCs {
+		for _, f := range plan.RPCs[i].LibFaults {
+			e.failAt["r"+strconv.Itoa(i)+"/"+f.Kind] = f.At
+		}
+	}
 	res.Env = e
 	curEnv = e
 	defer func() { curEnv = nil }()
